@@ -275,7 +275,15 @@ class Client(object):
         assert auth_ext is not None
         advertised = [self._encode(mech_name)
                       for mech_name in auth_ext.split()]
-        auth = AuthSession(SASLAuth.named(advertised), self.io)
+        usable = []
+        for mech_name in advertised:
+            # Servers advertise mechanisms this library has never heard of.
+            try:
+                SASLAuth.named([mech_name])
+            except KeyError:
+                continue
+            usable.append(mech_name)
+        auth = AuthSession(SASLAuth.named(usable), self.io)
         if not mechanism and auth.client_mechanisms:
             mechanism = auth.client_mechanisms[0].name
         return auth.client_attempt(authcid, secret, authzid, mechanism)
